@@ -19,7 +19,7 @@ REPO = os.environ.get("VERIF_REPO", "/repo")
 VTIME_DIRS = ["agent/consul/state", "agent/consul/fsm", "agent/structs", "internal/storage/inmem", "internal/storage/raft", "agent/consul", "agent/consul/stream"]
 # packages whose "sync" import is rewritten to the scheduling shim (falls through to the real
 # primitives unless a schedule exploration is running)
-VSYNC_DIRS = ["internal/storage/inmem", "agent/consul/stream"]
+VSYNC_DIRS = ["internal/storage/inmem", "agent/consul/stream", "agent/consul/fsm"]
 # packages whose timers are fired by the harness (own Timer type): "time" -> vtimer
 VTIMER_DIRS = ["agent/local"]
 REWRITES = [
